@@ -200,6 +200,12 @@ Proof. destruct o; cbn; auto. Qed.
 Lemma file_op_wf_c01 s o : file_op o = true -> WfOps.wf_op s o = true.
 Proof. destruct o; cbn; auto; discriminate. Qed.
 
+Lemma run_steps_length {St} (step : St -> op -> St * res) : forall ops s, length (snd (run_steps step s ops)) = length ops.
+Proof.
+  induction ops as [|o ops IH]; intros s; [reflexivity|]. cbn [run_steps]. destruct (step s o) as [s1 x].
+  specialize (IH s1). destruct (run_steps step s1 ops) as [s2 xs]. cbn [snd length] in *. now rewrite IH.
+Qed.
+
 (* a run of file-handle methods on the layer against the byte-array specification *)
 Theorem m_run_file_ops g lh : forall ops s d h t,
   WF s -> FH g lh s d h -> Rel (mkFS d [h]) t ->
